@@ -369,6 +369,45 @@ def rule_dispatch(ctx: Ctx) -> None:
                     f"`{sub}` has no branch of its own and falls into the `{sup}` branch, whose entries are sorted: two {sub} values that differ only in order get the same key", key=f"own-branch {sub}")
 
 
+def rule_total_order(ctx: Ctx) -> None:
+    """The canonical order of an unordered container must be TOTAL.  `sorted()` by the elements' own `<` is canonical only for
+    totally ordered types; `<` on sets is the subset relation - a partial order for which sorted() raises nothing and returns an
+    order that depends on the order of its input.  A sorter that tries the natural order first therefore has to replace set-like
+    keys by a totally ordered stand-in (their sorted elements) before it compares them."""
+    n = 0
+    for f in [x for x in ctx.prog.functions_in(MOD) if x.cls is None and x.name in SORTERS]:
+        par = {id(c): p_ for p_ in ast.walk(f.node) for c in ast.iter_child_nodes(p_)}
+        for c in [c for c in walk_no_nested(f.node) if isinstance(c, ast.Call) and dotted(c.func) == "sorted"]:
+            # the natural attempt: inside a try whose handler catches TypeError
+            x: ast.AST = c
+            natural = False
+            while id(x) in par:
+                child, x = x, par[id(x)]
+                if isinstance(x, ast.Try) and child in x.body and any(h.type is not None and "TypeError" in norm(h.type) for h in x.handlers):
+                    natural = True
+            if not natural:
+                continue
+            n += 1
+            k = next((kw.value for kw in c.keywords if kw.arg == "key"), None)
+            pkey = {p_ for p_ in f.param_names()}
+            raw = k is None or (isinstance(k, ast.Name) and k.id in pkey)
+            if isinstance(k, ast.Lambda):
+                # lambda x: key(x)  /  lambda x: x   - still the element's own order
+                body = k.body
+                raw = isinstance(body, ast.Name) or (isinstance(body, ast.Call) and isinstance(body.func, ast.Name) and body.func.id in pkey and len(body.args) == 1 and isinstance(body.args[0], ast.Name))
+            handles_sets = False
+            if k is not None and not raw:
+                for call in [y for y in ast.walk(k) if isinstance(y, ast.Call)]:
+                    for callee in ctx.cg.resolve_callable(f, call.func):
+                        if any(isinstance(t, ast.Call) and dotted(t.func) == "isinstance" and len(t.args) == 2 and any(w in norm(t.args[1]) for w in ("set", "Set")) for t in ast.walk(callee.node)):
+                            handles_sets = True
+            ctx.tri("3-order", f, c, handles_sets, raw, f"`{norm(c)[:50]}`: set-like keys are replaced by a totally ordered stand-in before the natural sort",
+                    f"`{norm(c)[:60]}` orders the keys by their own `<` and only falls back when that RAISES: `<` on (frozen)sets is the subset relation, a partial order - no exception, and the result depends on the input order. "
+                    "Equal dicts / sets whose keys are frozensets get different cache keys depending on the order they were built in", f"sort key `{norm(k)[:40] if k is not None else ''}` not recognised", key=f"total-order {f.name}")
+    if not n:
+        ctx.add("3-order", MOD, "", True, "no sorter tries the elements' natural order first", key="total-order-scan")
+
+
 def rule_no_one_shot_reuse(ctx: Ctx) -> None:
     """A generator can be walked ONCE.  A helper that walks its argument a second time (the fallback sort after the first sort
     raised TypeError half-way) sees nothing the second time if a caller hands it a generator: every dict with keys that cannot be
@@ -775,7 +814,7 @@ def rule_sole(ctx: Ctx) -> None:  # noqa: C901
 
 def check(ctx: Ctx) -> None:
     _roles(ctx)
-    for rule in (rule_tagged, rule_dispatch, rule_order_and_recursion, rule_no_one_shot_reuse, rule_no_preflattening, rule_total, rule_identity, rule_no_value_projection, rule_stable, rule_sole):
+    for rule in (rule_tagged, rule_dispatch, rule_order_and_recursion, rule_total_order, rule_no_one_shot_reuse, rule_no_preflattening, rule_total, rule_identity, rule_no_value_projection, rule_stable, rule_sole):
         ctx.run(rule)
 
 
